@@ -641,7 +641,7 @@ func (c *glCtx) checkCall(call *ast.CallExpr, tag string) (string, bool) {
 			if rt == "" {
 				return "", false
 			}
-			chain := "(.effect \"unknown dynamic type\")"
+			chain := "(.effect \"dispatch: unknown dynamic type\")"
 			for i := len(dyn) - 1; i >= 0; i-- {
 				key := dyn[i] + "." + se.Sel.Name
 				c.q.translate(c.p, key)
@@ -1352,6 +1352,8 @@ func emitValidators(p *pkg, out string) {
 	for _, k := range fileEntries {
 		q.translate(p, k)
 	}
+	// the comparison MergeFiles groups batches by
+	q.translate(p, "BatchHeader.Equal")
 	for _, k := range q.order {
 		lf.pf("def %s : Prog :=\n  %s\n\n", glName(k), q.done[k])
 	}
